@@ -25,8 +25,10 @@ MANIFEST = {
              "response error with status; a 200 body holding the response element -> exactly the declared out-arguments "
              "present, converted by the declared coercion, for arbitrary trees, orders, and trailing padding; unknown "
              "out-arguments / foreign namespace -> library error in strict mode, tolerated otherwise. The exception "
-             "hierarchy and the type table are regenerated from the source and pinned by decide-theorems. The model is "
-             "tied to client.py by comparing outcome class, error_code, error_desc, status and returned mapping on every "
+             "hierarchy and the type table are regenerated from the source and pinned by decide-theorems. "
+             "c07_history_ok: every call of every history of calls on one action object satisfies the judge on its own "
+             "response (decode is stateless in the model; the implementation is compared call by call on generated "
+             "histories). The model is tied to client.py by comparing outcome class, error_code, error_desc, status and returned mapping on every "
              "generated response; C07.ok is evaluated on the implementation's outcome."),
     "note": ("Trusted: Lean kernel + standard axioms; XML text -> tree (expat/defusedxml: prefixes, whitespace, entities, "
              "CDATA) is an oracle table filled by the real parser, sampled not proved; float()/parse_date_time are oracles; "
@@ -35,8 +37,10 @@ MANIFEST = {
              "model but not judged."),
     "technique": "Lean 4 proof (model satisfies the judge for all trees/statuses/modes) + generated tables + model/implementation correspondence",
 }
-RULE = ("one case = one generated action (0..5 out-arguments over all data types, optional in-arguments, strict and "
-        "non-strict) and one response: status x {success, fault, neither, garbage, no body} x out-argument "
+RULE = ("one case = one generated action OBJECT (0..5 out-arguments over all data types, optional in-arguments, strict "
+        "and non-strict) and a HISTORY of 1..6 successive calls on it (plus one 36-call walk over the status grid per "
+        "mode), each call judged on its own response only; every boundary status 199/200/201/204/299/300/404/500/599 x "
+        "{success, fault, neither, garbage} x {strict, non-strict} occurs in every run; per response: status x {success, fault, neither, garbage, no body} x out-argument "
         "subsets/orders/duplicates/unknown names/values (canonical, alternate spellings, unconvertible, empty) x "
         "serialisation (envelope/response prefixes, default namespace, foreign or version-shifted namespace, XML "
         "declaration, CDATA/character references, inter-element whitespace, comments, Header, leading and trailing "
@@ -97,41 +101,56 @@ def oracle_lines(decl: Dict[str, Any], texts: List[str]) -> List[str]:
     return c06.oracle_lines(decl, by_arg)
 
 
+def _ops_of(recipe: Dict[str, Any]) -> List[Dict[str, Any]]:
+    """a recipe is a history: `ops` = the answers the device gives to successive calls of ONE action
+    object (the older single-call form {status, body} is a history of length one)"""
+    if "ops" in recipe:
+        return list(recipe["ops"])
+    return [{"status": recipe["status"], "body": recipe["body"], "kind": recipe.get("kind", "?"), "ser": recipe.get("ser", [])}]
+
+
 def run_recipe(ctx: Ctx, recipe: Dict[str, Any], cid: str) -> Case:
     decl = recipe["decl"]
-    status = recipe["status"]
-    body = recipe["body"]
     kwargs = {n: val_unjson(j) for n, j in recipe.get("kwargs", [])}
-    req, action = build_action(decl, (status, {}, body))
-    exc: Optional[BaseException] = None
-    result = None
-    try:
-        result = run(action.async_call(**kwargs))
-    except Exception as e:  # noqa: BLE001 - the exception is the observation
-        exc = e
+    ops = _ops_of(recipe)
+    req, action = build_action(decl, (200, {}, ""))
     lines = decl_lines(decl)
-    variants = [] if not isinstance(body, str) else [body.rstrip(PAD), body.strip(PAD)]
-    lines += oracle_lines(decl, variants)
-    lines.append(f"resp {status} {opt_tok(body if isinstance(body, str) else None)}")
-    xl = xml_entries(variants)
-    lines += xl
-    tags = {f"strict:{decl['strict']}", f"status:{status}", "kind:" + recipe.get("kind", "?")}
-    tags.update("ser:" + s for s in recipe.get("ser", []))
-    if exc is None:
-        lines.append("ret")
-        for k, v in result.items():
-            lines.append(f"item {tok_str(k)} {val_tok(v)}")
-        tags.add(f"out:ret{min(len(result), 3)}")
-    else:
-        code = getattr(exc, "error_code", None)
-        desc = getattr(exc, "error_desc", None)
-        st = getattr(exc, "status", None)
-        lines.append(f"exc {exc_token(exc)} {lib_mro(exc)} {'~' if code is None else int(code)} "
-                     f"{opt_tok(desc if isinstance(desc, str) else None)} {'~' if st is None else int(st)}")
-        tags.add("out:" + exc_token(exc))
-    nontrivial = any(ln.startswith("xml ") and ln.endswith(" y") for ln in xl)
+    tags = {f"strict:{decl['strict']}", f"calls:{min(len(ops), 6)}"}
+    nontrivial = False
+    sigs = []
+    for op in ops:
+        status, body = op["status"], op["body"]
+        req.response = (status, {}, body)      # the SAME action object answers every call of the history
+        exc: Optional[BaseException] = None
+        result = None
+        try:
+            result = run(action.async_call(**kwargs))
+        except Exception as e:  # noqa: BLE001 - the exception is the observation
+            exc = e
+        lines.append("call")
+        variants = [] if not isinstance(body, str) else [body.rstrip(PAD), body.strip(PAD)]
+        lines += oracle_lines(decl, variants)
+        lines.append(f"resp {status} {opt_tok(body if isinstance(body, str) else None)}")
+        xl = xml_entries(variants)
+        lines += xl
+        tags.update({f"status:{status}", "kind:" + op.get("kind", "?"), f"grid:{status}x{op.get('kind', '?')}"})
+        tags.update("ser:" + x for x in op.get("ser", []))
+        if exc is None:
+            lines.append("ret")
+            for k, v in result.items():
+                lines.append(f"item {tok_str(k)} {val_tok(v)}")
+            tags.add(f"out:ret{min(len(result), 3)}")
+        else:
+            code = getattr(exc, "error_code", None)
+            desc = getattr(exc, "error_desc", None)
+            st = getattr(exc, "status", None)
+            lines.append(f"exc {exc_token(exc)} {lib_mro(exc)} {'~' if code is None else int(code)} "
+                         f"{opt_tok(desc if isinstance(desc, str) else None)} {'~' if st is None else int(st)}")
+            tags.add("out:" + exc_token(exc))
+        nontrivial = nontrivial or any(ln.startswith("xml ") and ln.endswith(" y") for ln in xl)
+        sigs.append(f"{status}/{op.get('kind', '?')}/{'ret' if exc is None else exc_token(exc)}")
     case = Case(cid, lines, recipe, nontrivial, sorted(tags))
-    case.sig = f"C07 status={status} kind={recipe.get('kind', '?')} out={'ret' if exc is None else exc_token(exc)}"  # type: ignore[attr-defined]
+    case.sig = f"C07 calls={len(ops)} " + ",".join(sigs[:8])  # type: ignore[attr-defined]
     return case
 
 
@@ -337,20 +356,21 @@ def rand_decl(rng) -> Dict[str, Any]:
     }
 
 
-def rand_case(rng) -> Dict[str, Any]:
-    decl = rand_decl(rng)
-    kwargs = []
-    for a in decl["args"]:
-        if a["dir"] == "in":
-            kwargs.append([a["name"], {"i4": ["i", "1"], "string": ["s", "x"], "boolean": ["b", True]}[a["type"]]])
-    status = 200 if rng.random() < 0.6 else rng.choice(STATUSES)
+BOUNDARY_STATUSES = [199, 200, 201, 204, 299, 300, 404, 500, 599]
+KINDS = ["success", "fault", "neither", "garbage"]
+
+
+def rand_response(rng, decl: Dict[str, Any], status: Optional[int] = None, kind: Optional[str] = None) -> Dict[str, Any]:
+    """one answer of the device: status x kind x serialisation"""
+    if status is None:
+        status = 200 if rng.random() < 0.6 else rng.choice(STATUSES + BOUNDARY_STATUSES)
     ser: List[str] = []
-    c = rng.random()
-    if c < 0.5:
-        kind = "success"
+    if kind is None:
+        c = rng.random()
+        kind = "success" if c < 0.5 else "fault" if c < 0.72 else "neither" if c < 0.82 else "garbage" if c < 0.97 else "nobody"
+    if kind == "success":
         body = render_envelope(rng, render_success(rng, decl, ser), ser)
-    elif c < 0.72:
-        kind = "fault"
+    elif kind == "fault":
         inner = render_fault(rng, ser)
         if rng.random() < 0.1:
             inner = inner + render_success(rng, decl, ser)
@@ -359,18 +379,15 @@ def rand_case(rng) -> Dict[str, Any]:
             inner = inner + render_fault(rng, ser)
             ser.append("two-faults")
         body = render_envelope(rng, inner, ser)
-    elif c < 0.82:
-        kind = "neither"
+    elif kind == "neither":
         body = render_envelope(rng, rng.choice(["", "<other/>", f"<u:Other xmlns:u={quoteattr(decl['service_type'])}/>"]), ser) \
             if rng.random() < 0.6 else rng.choice(NEITHER)
-    elif c < 0.97:
-        kind = "garbage"
+    elif kind == "garbage":
         body = rng.choice(GARBAGE)
         if rng.random() < 0.3:
             good = render_envelope(rng, render_success(rng, decl, ser), ser)
             body = rng.choice([good[: len(good) // 2], good + "<extra/>", good.replace("</", "<", 1), "x" + good])
     else:
-        kind = "nobody"
         body = None
     if body is not None:
         tail = rng.choice(["", "", "", "\n", "\0", " \r\n\0\0", "\r\n", "\t \n", "\0\n\0"])
@@ -380,7 +397,42 @@ def rand_case(rng) -> Dict[str, Any]:
         if head:
             ser.append("pad:head")
         body = head + body + tail
-    return {"decl": decl, "status": status, "body": body, "kwargs": kwargs, "kind": kind, "ser": sorted(set(ser))}
+    return {"status": status, "body": body, "kind": kind, "ser": sorted(set(ser))}
+
+
+def _kwargs_for(decl: Dict[str, Any]):
+    return [[a["name"], {"i4": ["i", "1"], "string": ["s", "x"], "boolean": ["b", True]}[a["type"]]]
+            for a in decl["args"] if a["dir"] == "in"]
+
+
+def rand_case(rng) -> Dict[str, Any]:
+    """a history: 1..6 answers to successive calls of one action object (most histories are short;
+    every answer is judged on its own)"""
+    decl = rand_decl(rng)
+    n = rng.choice([1, 1, 1, 2, 2, 3, 4, 6])
+    ops = [rand_response(rng, decl) for _ in range(n)]
+    if n >= 2 and rng.random() < 0.5:
+        # a full success first, then an answer with a smaller out-argument subset: stale values of the
+        # first call must not show up in the second
+        ops[0] = rand_response(rng, decl, status=200, kind="success")
+    return {"decl": decl, "ops": ops, "kwargs": _kwargs_for(decl)}
+
+
+def grid_cases(rng) -> List[Dict[str, Any]]:
+    """every boundary status x every kind, strict and non-strict (histories of length one), plus one
+    history per mode that walks the whole grid on a single action object"""
+    out = []
+    for strict in (True, False):
+        walk_decl = dict(rand_decl(rng), strict=strict)
+        walk = []
+        for status in BOUNDARY_STATUSES:
+            for kind in KINDS:
+                decl = dict(rand_decl(rng), strict=strict)
+                out.append({"decl": decl, "ops": [rand_response(rng, decl, status, kind)], "kwargs": _kwargs_for(decl)})
+                walk.append(rand_response(rng, walk_decl, status, kind))
+        rng.shuffle(walk)
+        out.append({"decl": walk_decl, "ops": walk, "kwargs": _kwargs_for(walk_decl)})
+    return out
 
 
 def _d(outs, strict=True):
@@ -418,6 +470,15 @@ CORPUS = [
      "body": _ENV.format(f'<m:GetVolumeResponse xmlns:m="{_ST}">\n  <C> -12 </C>\n  <B>a &lt;b&gt; &amp;</B>\n  <A>TRUE</A>\n</m:GetVolumeResponse>')},
     {"decl": _d([("CurrentVolume", "ui2")]), "status": 200, "kind": "fault", "body": _ENV.format("<s:Fault/>")},
     {"decl": _d([("CurrentVolume", "ui2")]), "status": 200, "kind": "nobody", "body": None},
+    # history on one action object: full answer, then a smaller subset, a fault, garbage, and the full answer again
+    {"decl": _d([("A", "boolean"), ("B", "string"), ("C", "i4")]), "ops": [
+        {"status": 200, "kind": "success", "body": _ENV.format(f'<u:GetVolumeResponse xmlns:u="{_ST}"><A>1</A><B>x</B><C>5</C></u:GetVolumeResponse>')},
+        {"status": 200, "kind": "success", "body": _ENV.format(f'<u:GetVolumeResponse xmlns:u="{_ST}"><C>6</C></u:GetVolumeResponse>')},
+        {"status": 200, "kind": "success", "body": _ENV.format(f'<u:GetVolumeResponse xmlns:u="{_ST}"></u:GetVolumeResponse>')},
+        {"status": 500, "kind": "fault", "body": _ENV.format(_FAULT)},
+        {"status": 200, "kind": "garbage", "body": "oops"},
+        {"status": 200, "kind": "success", "body": _ENV.format(f'<u:GetVolumeResponse xmlns:u="{_ST}"><B>y</B><A>0</A></u:GetVolumeResponse>')},
+    ]},
 ]
 
 
@@ -434,7 +495,9 @@ def generate(ctx: Ctx) -> List[Case]:
     cases: List[Case] = []
     for i, rec in enumerate(CORPUS):
         cases.append(run_recipe(ctx, rec, f"corpus{i}"))
-    n = 150000 if ctx.thorough else 3000
+    for i, rec in enumerate(grid_cases(ctx.rng)):
+        cases.append(run_recipe(ctx, rec, f"grid{i}"))
+    n = 70000 if ctx.thorough else 1500
     if ctx.thorough:
         import multiprocessing as mp
         chunk = 3000
